@@ -246,7 +246,8 @@ def main(argv=None):
     for u in unconfirmed:
         print(f"UNCONFIRMED counterexample (harness error): {u}")
     for f in fatal:
-        print(f"HARNESS-ERROR: {json.dumps(f)[:1500]}")
+        print(f"HARNESS-ERROR: job={(f or {}).get('job', {}).get('name')} {str((f or {}).get('fatal'))[:200]!r} ... "
+              f"{str((f or {}).get('fatal'))[-600:]!r}")
     for x in inconclusive[:20]:
         print(f"INCONCLUSIVE: {json.dumps(x)[:400]}")
     for x in reach_fail[:20]:
